@@ -13,6 +13,7 @@ JOBS = {
     "C18": [
         {"cmd": "c18-hpack", "race": False, "timeout": {"quick": 300, "thorough": 1800}, "fatal_is_violation": True},
         {"cmd": "c18-framer", "race": False, "timeout": {"quick": 300, "thorough": 1800}, "fatal_is_violation": True},
+        {"cmd": "c18-preface", "race": True, "timeout": {"quick": 300, "thorough": 900}},
         {"cmd": "c18-flow", "race": True, "timeout": {"quick": 600, "thorough": 2400}},
     ],
     "C14": [
@@ -103,6 +104,7 @@ JOBS = {
          "race_anchors": ["cluster.SetHealthFlag", "cluster.ClearHealthFlag"]},
         {"cmd": "c16-stress", "race": True, "timeout": {"quick": 300, "thorough": 1500},
          "race_anchors": ["cluster.SetHealthFlag", "cluster.ClearHealthFlag"]},
+        {"cmd": "c16-lifecycle", "race": True, "batches": {"quick": 2, "thorough": 4}, "timeout": {"quick": 400, "thorough": 1500}},
         {"cmd": "c16-threshold", "race": False, "batches": {"quick": 4, "thorough": 12},
          "timeout": {"quick": 300, "thorough": 1500}},
     ],
